@@ -8,16 +8,21 @@
 EXTENDS IntALU, Json, FiniteSets, SequencesExt
 CONSTANTS Tier
 B(k) == IF Tier = "quick" THEN BQuick(k) ELSE BFull(k)
-CountKinds == IF Tier = "quick" THEN {"int", "uint8"} ELSE Kinds
+\* operands of + - , the bitwise operators and comparisons (thorough: a medium set; * / % and shifts use the full set)
+B2(k) == IF Tier = "quick" THEN BQuick(k) ELSE BMid(k)
+CountKinds == IF Tier = "quick" THEN {"int", "uint8"} ELSE {"int", "int8", "uint8", "uint64"}
 ConvTargets == IF Tier = "quick" THEN {"int8", "uint8", "int32", "uint16", "int64", "uint64"} ELSE Kinds
-CmpOps == IF Tier = "quick" THEN {"eq", "lt", "ge"} ELSE Cmps
+CmpOps == IF Tier = "quick" THEN {"lt", "ge"} ELSE Cmps
+\* quick: the left operand is never 0 (0 op y is covered by the thorough tier)
+NZ(vals) == IF Tier = "quick" THEN vals \ {Zero} ELSE vals
 
 Roots == {[op |-> o, k |-> k, k2 |-> k] : o \in Arith \cup CmpOps \cup Unary, k \in Kinds}
          \cup {[op |-> o, k |-> k, k2 |-> k2] : o \in Shifts, k \in Kinds, k2 \in CountKinds}
          \cup {[op |-> "conv", k |-> k, k2 |-> k2] : k \in Kinds, k2 \in ConvTargets}
 Operands(r) ==
-  IF r.op \in Arith \cup Cmps THEN {<<x, y>> : x \in B(r.k), y \in B(r.k)}
-  ELSE IF r.op \in Shifts THEN {<<x, y>> : x \in B(r.k), y \in Counts(r.k2, W(r.k))}
+  IF r.op \in {"mul", "div", "rem"} THEN {<<x, y>> : x \in NZ(B(r.k)), y \in B(r.k)}
+  ELSE IF r.op \in Arith \cup Cmps THEN {<<x, y>> : x \in NZ(B2(r.k)), y \in B2(r.k)}
+  ELSE IF r.op \in Shifts THEN {<<x, y>> : x \in NZ(B(r.k)), y \in Counts(r.k2, W(r.k))}
   ELSE IF r.op \in Unary THEN {<<x, Zero>> : x \in B(r.k)}
   ELSE {<<x, Zero>> : x \in B(r.k)}
 CaseSet == UNION {{[op |-> r.op, k |-> r.k, k2 |-> r.k2, x |-> xy[1], y |-> xy[2]] : xy \in Operands(r)} : r \in Roots}
